@@ -414,11 +414,14 @@ theorem selFold_equiv' (hok : HooksOK h) (hh : HooksPerm m h) (ev : Ev) (hP : Ru
     ∀ (l : List Cand) {s s' : St}, St.equiv m s s' → P s → ((∀ c ∈ l, C c) ∨ ∃ c, l = [c] ∧ E s c) →
       (b = false → l.length ≤ 1 ∧ ∀ c ∈ l, c.src ∈ s.cfg) →
       St.equiv m
-        (l.foldl (fun s c => if s.err.isSome then s else if b && !(s.cfg.contains c.src) then s
+        (l.foldl (fun s c => if s.err.isSome then s else if finished s.status then s
+          else if b && !(s.cfg.contains c.src) then s
           else execute h fl m ev (planTransition m s.cfg s.hist c) s) s)
-        (l.foldl (fun s c => if s.err.isSome then s else if b && !(s.cfg.contains c.src) then s
+        (l.foldl (fun s c => if s.err.isSome then s else if finished s.status then s
+          else if b && !(s.cfg.contains c.src) then s
           else execute h fl m ev (planTransition m s.cfg s.hist c) s) s') ∧
-      P (l.foldl (fun s c => if s.err.isSome then s else if b && !(s.cfg.contains c.src) then s
+      P (l.foldl (fun s c => if s.err.isSome then s else if finished s.status then s
+          else if b && !(s.cfg.contains c.src) then s
           else execute h fl m ev (planTransition m s.cfg s.hist c) s) s) := by
   intro l
   induction l with
@@ -449,6 +452,11 @@ theorem selFold_equiv' (hok : HooksOK h) (hh : HooksPerm m h) (ev : Ev) (hP : Ru
       rw [if_pos h1, if_pos h1']; exact ih he hs (hCl s) hbl
     · have h1' : ¬ s'.err.isSome = true := he.err ▸ h1
       rw [if_neg h1, if_neg h1']
+      by_cases h3 : finished s.status = true
+      · have h3' : finished s'.status = true := he.status ▸ h3
+        rw [if_pos h3, if_pos h3']; exact ih he hs (hCl s) hbl
+      have h3' : ¬ finished s'.status = true := he.status ▸ h3
+      rw [if_neg h3, if_neg h3']
       by_cases h2 : (b && !(s.cfg.contains c.src)) = true
       · have h2' : (b && !(s'.cfg.contains c.src)) = true := he.cfg.contains_eq ▸ h2
         rw [if_pos h2, if_pos h2']; exact ih he hs (hCl s) hbl
